@@ -48,6 +48,8 @@ class _ObjClasses(dict):
             self["_Validator"] = (MD._Validator, ["name", "raw_name", "added"])
             # --- x5
             self["SpecifierSet"] = (SP.SpecifierSet, ["_specs", "_prereleases"])
+            from packaging import requirements as RQ
+            self["Requirement"] = (RQ.Requirement, ["name", "url", "extras", "specifier", "marker"])
 
     def __contains__(self, k):
         self._load()
@@ -1242,11 +1244,11 @@ import contextlib
 def _transparent(name):
     """while a function of X5_FUNCS is generated / answered, SpecifierSet objects travel with their fields"""
     if name in X5_FUNCS:
-        TRANSPARENT.update({"SpecifierSet"})
+        TRANSPARENT.update({"SpecifierSet", "Requirement"})
         try:
             yield
         finally:
-            TRANSPARENT.difference_update({"SpecifierSet"})
+            TRANSPARENT.difference_update({"SpecifierSet", "Requirement"})
     else:
         yield
 
@@ -1275,9 +1277,10 @@ def _apply_order(env, vals):
     prio = dict(env).get("frozenset.order")
     out = []
     for v in vals:
-        if type(v).__name__ == "SpecifierSet" and isinstance(getattr(v, "_specs", None), frozenset):
-            order = _order_by(prio, v._specs) if prio is not None else sorted(v._specs, key=enc_val)
-            v._specs = _OrderedFS(v._specs, order)
+        for o in (v, getattr(v, "specifier", None)):          # a SpecifierSet, or the one a Requirement holds
+            if type(o).__name__ == "SpecifierSet" and isinstance(getattr(o, "_specs", None), frozenset):
+                order = _order_by(prio, o._specs) if prio is not None else sorted(o._specs, key=enc_val)
+                o._specs = _OrderedFS(o._specs, order)
         out.append(v)
     return out
 
@@ -1443,11 +1446,91 @@ FUNCS.update({
     "SpecifierSet.contains": (_SP, "SpecifierSet.contains", _g_sset_contains),
     "SpecifierSet.filter": (_SP, "SpecifierSet.filter", _g_sset_filter),
 })
-X5_FUNCS = {n for n in FUNCS if n.startswith("SpecifierSet.")}
-ORDER_FUNCS = {"SpecifierSet.prereleases", "SpecifierSet.__str__", "SpecifierSet.__iter__", "SpecifierSet.__contains__",
+
+
+# ---- Requirement
+def _req_text(rng):
+    from props import C08
+    r = rng.random()
+    if r < 0.1:
+        return rng.choice(C08.WITNESS_TEXTS)
+    s = C08.render(rng, C08.req_struct(rng), loose=rng.random() < 0.2)
+    if rng.random() < 0.15:
+        s = C08.damage_req(rng, s)
+    return s
+
+
+def _req_obj(rng):
+    from packaging import requirements as RQ
+    for _ in range(200):
+        try:
+            return RQ.Requirement(_req_text(rng))
+        except Exception:
+            continue
+    return RQ.Requirement("a")
+
+
+def _g_req_init(rng):
+    from packaging import requirements as RQ
+    args = [object.__new__(RQ.Requirement), _req_text(rng)]
+    return [_record("packaging.markers", MARKER_ORACLES, RQ.Requirement.__init__, args)] + args
+
+
+def _g_req_self(rng):
+    return [_req_obj(rng)]
+
+
+def _g_req_self_env(rng):
+    r = _req_obj(rng)
+    return [_order_env(rng, r.specifier), r]
+
+
+def _g_req_parts(rng):
+    r = _req_obj(rng)
+    return [_order_env(rng, r.specifier), r, rng.choice([r.name, r.name, "other-name", ""])]
+
+
+def _g_req_two(rng):
+    from packaging import requirements as RQ
+    from props import C08
+    a = _req_obj(rng)
+    k = rng.random()
+    if k < 0.35:                                  # the same requirement, written again (other spelling / order)
+        try:
+            b = RQ.Requirement(str(a))
+        except Exception:
+            b = a
+    elif k < 0.55:                                # one part differs
+        st = str(a)
+        b = None
+        for cand in (st.replace(a.name, a.name.upper(), 1), st + " ; os_name == 'x'", st.split(";")[0], a.name):
+            try:
+                b = RQ.Requirement(cand)
+                break
+            except Exception:
+                continue
+        b = b or a
+    elif k < 0.9:
+        b = _req_obj(rng)
+    else:
+        b = rng.choice([None, 1, str(a)])
+    return [a, b]
+
+
+_RQ = "packaging.requirements"
+FUNCS.update({
+    "Requirement.__init__": (_RQ, "Requirement.__init__", _g_req_init),
+    "Requirement._iter_parts": (_RQ, "Requirement._iter_parts", _g_req_parts),
+    "Requirement.__str__": (_RQ, "Requirement.__str__", _g_req_self_env),
+    "Requirement.__hash__": (_RQ, "Requirement.__hash__", _g_req_self),
+    "Requirement.__eq__": (_RQ, "Requirement.__eq__", _g_req_two),
+})
+EXT_FUNCS |= {"Requirement.__init__"}
+X5_FUNCS = {n for n in FUNCS if n.startswith("SpecifierSet.") or n.startswith("Requirement.")}
+ORDER_FUNCS = {"Requirement._iter_parts", "Requirement.__str__", "SpecifierSet.prereleases", "SpecifierSet.__str__", "SpecifierSet.__iter__", "SpecifierSet.__contains__",
                "SpecifierSet.contains", "SpecifierSet.filter"}
 SETTER_FUNCS = {"SpecifierSet.prereleases__set"}
-SYM_HASH_FUNCS.update({"Specifier.__hash__": _SP, "SpecifierSet.__hash__": _SP})
+SYM_HASH_FUNCS.update({"Specifier.__hash__": _SP, "SpecifierSet.__hash__": _SP, "Requirement.__hash__": _RQ})
 
 
 class _Src:
